@@ -1289,13 +1289,23 @@ class Image(Vectorizable, Landmarkable, Viewable, LandmarkableViewable):
             raise ImageBoundaryError(min_indices, max_indices, min_bounded, max_bounded)
 
         new_shape = (max_bounded - min_bounded).astype(int)
-        return self.warp_to_shape(
+        result = self.warp_to_shape(
             new_shape,
             Translation(min_bounded),
             order=0,
             warp_landmarks=True,
             return_transform=return_transform,
         )
+        # The warp samples through floating point interpolation, which turns
+        # NaN into 0, drops the sign of -0.0 and rounds 64 bit integers above
+        # 2**53. A crop is a block of the source pixels, so copy that block.
+        cropped = result[0] if return_transform else result
+        block = tuple(
+            slice(lo, hi)
+            for lo, hi in zip(min_bounded.astype(int), max_bounded.astype(int))
+        )
+        cropped.pixels[...] = self.pixels[(slice(None),) + block]
+        return result
 
     def crop_to_pointcloud(
         self, pointcloud, boundary=0, constrain_to_boundary=True, return_transform=False
